@@ -266,7 +266,8 @@ def export_binvox(voxel, axis_order="xzy"):
     translate[neg_scale] += scale[neg_scale]
     encoding = voxel.encoding.flip(neg_scale)
     scale = np.abs(scale)
-    if not util.allclose(scale[0], scale[1:], 1e-6 * scale[0] + 1e-8):
+    # the spread of the three extents, in the grid's own unit
+    if np.ptp(scale) > 1e-6 * scale.max():
         raise ValueError("Can only export binvox with uniform scale")
     scale = scale[0]
     if axis_order == "xzy":
